@@ -415,14 +415,12 @@ def distance_grad(x, eps=1e-12):
     with respect to the points `y`. The epsilon value is added to the computed squared distances
     before taking the square root to ensure numerical stability.
     """
-    xx = arraysum(x * x, axis=1)[:, newaxis]
 
     def grad(y):
-        yy = arraysum(y * y, axis=1)[newaxis, :]
-        xy = tensordot(x, y, axes=(1, 1))
-        sq = xx - 2 * xy + yy + eps
-        distance = sqrt(maximum(sq, 0))
         delta = y[newaxis, :] - x[:, newaxis]
+        # distance from the differences themselves: the expanded form xx - 2xy + yy cancels for
+        # near-coincident points far from the origin, and delta / distance must stay a unit vector
+        distance = sqrt(arraysum(delta * delta, axis=-1) + eps)
         gradient = delta / (distance[..., newaxis] + eps)
         return distance, gradient
 
